@@ -43,7 +43,8 @@ def build_cases(tier):
     from .c05 import is_f05b
 
     for c in F.names_inline():
-        cases.append(dict(c, variants=[v for v in vs if not v["tail_call_optimization"]], family=("W-F05b" if is_f05b(c["names"]) else c["family"])))
+        vv = [v for v in vs if not v["tail_call_optimization"] and (c["family"] != "NAMESINL-TERM" or v["inline_functions"])]
+        cases.append(dict(c, variants=vv, family=("W-F05b" if is_f05b(c["names"]) else c["family"])))
     for c in F.w_tailcall():
         cases.append(dict(c, variants=[v for v in vs if not v["inline_functions"]]))
     for c in F.func_cyclic():
